@@ -232,7 +232,7 @@ h("kd7_zlib_wrapper", D + "/kd7_machine.rs", "deflate::verif_kani::kd7_machine",
   bounds="zlib wrapper, w_bits 9, all levels 0..=9 x 5 strategies x dictionary/no dictionary x any DICTID x flush in {Finish, Sync, Full, Partial, Block}; 16 bytes of output; second identical call",
   assumptions=RUNSTUB)
 h("kd7_zlib_starved_finish", D + "/kd7_machine.rs", "deflate::verif_kani::kd7_machine", ["C06", "C11", "C05", "C15"],
-  kernel="KD7", expect_s=120, timeout=1200, weight=2,
+  kernel="KD7", expect_s=330, timeout=1800, weight=3, mem_gb=24,
   functions=["deflate::deflate", "flush_pending"],
   bounds="zlib wrapper with dictionary id, Finish, up to 11 calls with 1..=3 bytes of output space each (symbolic)", assumptions=RUNSTUB)
 
@@ -429,6 +429,10 @@ for _w in ("extra", "name", "comment"):
       assumptions=RUNSTUB + ["crc32 -> nondeterministic", "CStr::from_ptr -> explicit-loop model",
                              "pre-state: status = the field's state, gzindex = bytes of the field already emitted (what flush_bytes leaves behind when it stops early)"])
 
+h("kd7_gzip_start_stale_gzindex", D + "/kd7_machine.rs", "deflate::verif_kani::kd7_machine", ["C14", "C20"], kernel="KD7", expect_s=60, timeout=1200, weight=2, mem_gb=16,
+  functions=["deflate::deflate (gzip header from Status::GZip: fixed part, Name/Comment, trailer)", "flush_bytes"],
+  bounds="new gzip member (status GZip) with a stale gzindex 0..=3 left by an abandoned member, name or comment of 3 symbolic chars, no extra field, ample output",
+  assumptions=RUNSTUB + ["crc32 -> nondeterministic", "CStr::from_ptr -> explicit-loop model"])
 h("ki8_sync_then_inflate", I + "/ki8_entry.rs", "inflate::verif_kani::ki8_entry", ["C15", "C16"], kernel="KI8", expect_s=60, timeout=900,
   functions=["inflate::sync", "inflate::inflate", "inflate::reset", "State::dispatch (TypeDo, Stored, CopyBlock, Check, Length, Done)"],
   bounds="any running totals < 2^40, concrete marker + final stored block with 2 symbolic data bytes", assumptions=STEP_ASSUME)
@@ -483,7 +487,7 @@ QUICK = {
     "C11": ["kd7_zlib_wrapper", "kd8_quick_sync_n3", "kd1_emitters_one_step"],
     "C13": ["ki5a_head_n6", "ki5a_set_dictionary", "ki3_get_dictionary_order", "kd7_zlib_wrapper", "kd10_set_dictionary_protocol"],
     "C14": ["kd10_reset_equals_fresh", "ki8_reset_equals_fresh", "ka2_deflate_copy_alloc_failure", "kd10c_pending_clone_to",
-            "kd10c_symbuf_clone_to", "ki8c_window_clone_to"],
+            "kd10c_symbuf_clone_to", "ki8c_window_clone_to", "kd7_gzip_start_stale_gzindex"],
     "C15": ["ki7_inflate_copyblock", "ki7_inflate_terminal", "ki5c_copyblock_resume", "ki1_bitreader_refill_model", "ki8_sync",
             "ki8_sync_then_inflate", "kd7_zlib_wrapper"],
     "C16": ["ki8_small_entry_points", "ki8_sync", "ki8_reset_equals_fresh", "ki5a_set_dictionary", "kd10_prime", "kd10_params_tune",
